@@ -28,6 +28,7 @@ type cs struct {
 	Src       string `json:"src"`     // ingress | service: where the authentication is declared
 	OPrefix   string `json:"oprefix"` // default | root: oauth-uri-prefix
 	Elder     string `json:"elder"`   // none | backend | frontend: an older Ingress of the host declares the placement itself
+	Twin      bool   `json:"twin"`    // another namespace has a Service with the name of the auth service, used the same way by an older Ingress
 }
 
 type rule struct {
@@ -74,14 +75,22 @@ func runCase(base string, i int, c cs) (rec, error) {
 		global["auth-proxy"] = "_front__auth:14415-14415"
 	}
 	p.Apply(kobj.ConfigMap("ingress", "cfg", global))
-	for _, s := range []string{"app", "app2", "auth"} {
+	for k, s := range []string{"app", "app2", "auth"} {
 		p.Apply(kobj.Service("d", s, nil, ":8080:8080"))
-		p.Apply(kobj.Endpoints("d", s, []string{"10.1.0.1:p"}, nil, ":8080"))
+		p.Apply(kobj.Endpoints("d", s, []string{fmt.Sprintf("10.1.0.%d:p", k+1)}, nil, ":8080"))
 	}
 	if c.Range == "exhausted" {
 		// an older ingress takes the only auth-proxy port
 		p.Apply(kobj.Ingress("d", "first", 0, map[string]string{"auth-url": "http://10.0.0.8:8000/other", "ssl-redirect": "false"}, nil,
 			[]kobj.Rule{{Host: "c.local", Paths: []kobj.Path{{Path: "/", Svc: "app2", Port: "8080"}}}}, nil, nil))
+	}
+	if c.Twin {
+		p.Apply(kobj.Service("e", "auth", nil, ":8080:8080"))
+		p.Apply(kobj.Endpoints("e", "auth", []string{"10.9.9.9:p"}, nil, ":8080"))
+		p.Apply(kobj.Service("e", "app", nil, ":8080:8080"))
+		p.Apply(kobj.Endpoints("e", "app", []string{"10.9.9.8:p"}, nil, ":8080"))
+		p.Apply(kobj.Ingress("e", "twin", 0, map[string]string{"auth-url": "svc://auth:8080/check", "ssl-redirect": "false"}, nil,
+			[]kobj.Rule{{Host: "e.local", Paths: []kobj.Path{{Path: "/", Svc: "app", Port: "8080"}}}}, nil, nil))
 	}
 	// the protected hostname is also known as b.local: a request using the alias is the same request
 	ann := map[string]string{"ssl-redirect": "false", "auth-external-placement": c.Placement, "server-alias": "b.local"}
@@ -151,6 +160,8 @@ func runCase(base string, i int, c cs) (rec, error) {
 	if r.Backend == nil {
 		return r, fmt.Errorf("backend d_app_8080 not found")
 	}
+	raw.ResolveAuthTargets(r.Front)
+	raw.ResolveAuthTargets(r.Backend.Auth)
 	return r, nil
 }
 
